@@ -60,13 +60,18 @@ _ALPHABETS = [
     "\x00\x01\x07\x08\x0b\x0c\x1b\x7f\x85",
 ]
 _PLAIN = ["a", "b", "c", "foo", "bar_1", "xY9"]
+# texts that Unicode normalisation / case folding would change: an atom's name is its text, code point by code point
+_NOT_NORMAL = ["e\u0301", "A\u030a", "\u212b", "\u2126", "\u1100\u1161", "\u0958", "\ufb01", "\u00c5ngstr\u00f6m", "a\u0308\u0323",
+               "\u1e9e", "\u0130", "\uff21", "x\u00b5y", "\u03a9", "\u01c5", "\u2000a", "caf\u00e9", "cafe\u0301"]
 
 
 def _atom_name(rng):
     r = rng.random()
-    if r < 0.30:
+    if r < 0.28:
         return rng.choice(_PLAIN)
-    if r < 0.55:
+    if r < 0.36:
+        return rng.choice(_NOT_NORMAL)
+    if r < 0.58:
         return rng.choice(_SPECIAL_ATOMS)
     n = rng.randint(1, 8)
     k = rng.randint(1, 3)
@@ -333,7 +338,9 @@ def ground_instance(lit, named):
     return map_vars(lit, f), [val[v] for v in named]
 
 
-CONST_SRC = "pa(_, _).\npb(f(_, _)) :- tc(k).\npc(X) :- X = g(_, _, _).\npd([_,_|_]).\ntc(k).\n"
+CONST_SRC = ("pa(_, _).\npb(f(_, _)) :- tc(k).\npc(X) :- X = g(_, _, _).\npd([_,_|_]).\ntc(k).\n"
+             # several `[..|_]` tails in one clause, also next to an if-then-else (whose code has its own `_` loop variable)
+             "pe([a|_], [b|_]).\npf(X, Y) :- ( X = [a|_] -> Y = [b|_] ; fail ), tc(k).\npg([_|_], [_|_], _).\n")
 
 
 # ---------------------------------------------------------------------- running
@@ -519,7 +526,11 @@ def run_scenario(sc):
                             ("pb", [yp.functor("f", [1, 2])], 1),
                             ("pc", [yp.functor("g", [1, yp.atom("x"), 1])], 1),
                             ("pd", [yp.makelist([1, 2])], 1), ("pd", [yp.makelist([1])], 0),
-                            ("pd", [yp.makelist([1, 2, 3, yp.atom("a")])], 1)):
+                            ("pd", [yp.makelist([1, 2, 3, yp.atom("a")])], 1),
+                            ("pe", [yp.makelist([yp.atom("a"), 1]), yp.makelist([yp.atom("b"), 2, 3])], 1),
+                            ("pe", [yp.makelist([yp.atom("a")]), yp.makelist([yp.atom("b"), yp.atom("c")])], 1),
+                            ("pf", [yp.makelist([yp.atom("a"), 1]), yp.makelist([yp.atom("b"), 2, 3])], 1),
+                            ("pg", [yp.makelist([1, 2]), yp.makelist([3]), 4], 1)):
         res = guarded("%s/_" % name, lambda: run_query(name, args))
         if res is not None:
             check(len(res) == exp, "%s%r: %d answers instead of %d (`_` must be distinct variables)" % (
